@@ -72,6 +72,7 @@ class Engine(object):
     self.spine = self.spine[:k]; self.spine_conds = self.spine_conds[:k]
     self.keep = k
     self.prefix = prefix; self.trace = []
+    self.aborted = False; self._nfail0 = len(getattr(self, 'failures', []))
     self.model = None
     self.nfresh = {}
     self.vars = {}         # name -> (kind, z3 term) declared on this path, in order
@@ -103,6 +104,12 @@ class Engine(object):
     if len(self.trace) == self.keep and self.level_complete:
       return True
     return False
+
+  def _abort(self):
+    """give up on this path (budget, solver 'unknown', non-determinism): whatever greenlet this happens in, nothing the
+    rest of the path asserts is believed (the job is reported inconclusive)"""
+    self.aborted = True
+    raise PathLimit()
 
   def fresh_name(self, base):
     if self.cleanup:
@@ -152,7 +159,7 @@ class Engine(object):
     i = len(self.trace)
     if i >= MAX_DECISIONS:
       self.inconclusive.append('decision limit %d reached' % MAX_DECISIONS)
-      raise PathLimit()
+      self._abort()
     if TRACE_SITES:
       import traceback
       site = ' < '.join('%s:%d' % (os.path.basename(f.filename), f.lineno) for f in reversed(traceback.extract_stack(limit=14)[:-2]) if '/symex/' not in f.filename)
@@ -167,7 +174,7 @@ class Engine(object):
         if not self.spine_conds[i].eq(cond):
           self.inconclusive.append('nondeterministic re-execution at decision %d: %s vs %s' % (
             i, self.spine_conds[i].sexpr()[:200], cond.sexpr()[:200]))
-          raise PathLimit()
+          self._abort()
     else:
       if self.model is None:
         r = self._check()
@@ -176,7 +183,7 @@ class Engine(object):
             self.inconclusive.append('path condition infeasible at a decision (harness bug)')
           else:
             self.inconclusive.append('solver unknown at decision: %s' % self.s.reason_unknown())
-          raise PathLimit()
+          self._abort()
         self.model = self.s.model()
       mv = self.model.eval(cond, model_completion=True)
       b = z3.is_true(mv)
@@ -256,7 +263,7 @@ class Engine(object):
     if r == z3.unsat:
       raise Infeasible()
     if r != z3.sat:
-      self.inconclusive.append('solver unknown in assume'); raise PathLimit()
+      self.inconclusive.append('solver unknown in assume'); self._abort()
     self.model = self.s.model()
 
   def declare(self, name, kind, term):
@@ -431,6 +438,9 @@ def explore(body, max_paths=10**7, stop_on_failure=True, first_prefix=None, soft
       E.path_checked = False; E.path_covers = set()
       E.stats['paths'] -= 1
       pruned_now = True
+    if getattr(E, 'aborted', False):
+      # the path was abandoned inside some greenlet (the others ran on): discard what it asserted
+      E.pending = []; E.path_checked = False; del E.failures[E._nfail0:]
     if pruned_now or not E._mine():
       E.stats['checks'], E.stats['checks_trivial'], E.stats['checks_unsat'] = E._snap
     if not pruned_now and not E._mine():
